@@ -339,6 +339,15 @@ def _memo_pattern(f):
             keyvar = node.test.left.id
             break
     if test_field is None:
+        # v = self.M.get(k); if v is not None: return v
+        for node in ast.walk(f.node):
+            if isinstance(node, ast.Assign) and isinstance(node.value, ast.Call) and isinstance(node.value.func, ast.Attribute) \
+                    and node.value.func.attr == 'get' and self_attr(node.value.func.value) and len(node.value.args) == 1 \
+                    and isinstance(node.value.args[0], ast.Name):
+                test_field = self_attr(node.value.func.value)
+                keyvar = node.value.args[0].id
+                break
+    if test_field is None:
         return None
     keyexpr = None
     for node in ast.walk(f.node):
